@@ -100,7 +100,7 @@ Proof. exact header_trailing_comment_shape. Qed.
 Print Assumptions C07_header_trailing_comment_shape.
 
 (* (repaired; was C07_else_trailing_comment_refuted - the general statement is C07_roundtrip_partial,
-   whose guard now admits a trailing comment on elif/else/except) the former witness
+   whose guard now allows a trailing comment on elif/else/except) the former witness
    `else:  # otherwise` parses like `else:`, the branch stays a branch *)
 Example C07_else_trailing_comment_witness :
   map erase (parse_lines w_else_comment) = map erase (parse_lines w_else_plain)
